@@ -110,3 +110,24 @@ package service
 //@ ensures implies(result0, result1 == nil)
 //@ loop 1 invariant typeis(thisDay, *klog.date) && klog.ddn(thisDay) == dn(gotime_year(endTime), gotime_month(endTime), gotime_day(endTime)) && typeis(theDayBefore, *klog.date) && klog.ddn(theDayBefore) == klog.ddn(thisDay) - 1
 //@ loop 1 invariant forall(i, 0, len(rs), typeis(rs[i], *klog.record) && typeis(rs[i].(*klog.record).date, *klog.date))
+
+// ---------------------------------------------------------------------------------------------
+// query.go — tag clauses (property C14): a record or entry matches when every queried tag is in its tag set
+// (set membership as defined by TagSet.Put: a queried bare name also finds tags with a value).
+//@ func isSubsetOf
+//@ requires allTags != nil
+//@ ensures result == forall(i, 0, len(queriedTags), allTags.lookup[queriedTags[i]])
+//@ loop 1 invariant forall(i, 0, rangeindex+1, allTags.lookup[queriedTags[i]])
+
+// tags.go — totalByTag.put: the statistics object of (name, value) - created with zero total and count when it is
+// missing - gets the duration added to its total and its count incremented; it is found under tbt[name][value].
+//@ func (totalByTag).put
+//@ requires nonnil(tbt) && nonnil(d) && klog.tiny(klog.dmin(d))
+//@ requires implies(nonnil(tbt[t.name]) && tbt[t.name][t.value] != nil, typeis(tbt[t.name][t.value].Total, *klog.duration) && klog.tiny(klog.dmin(tbt[t.name][t.value].Total)))
+//@ noframe
+//@ let had = nonnil(tbt[t.name]) && tbt[t.name][t.value] != nil
+//@ let before = ite(had, klog.dmin(tbt[t.name][t.value].Total), 0)
+//@ let cnt = ite(had, tbt[t.name][t.value].Count, 0)
+//@ ensures nonnil(tbt[t.name]) && tbt[t.name][t.value] != nil
+//@ ensures klog.dmin(tbt[t.name][t.value].Total) == old(before) + klog.dmin(d) && tbt[t.name][t.value].Count == old(cnt) + 1
+//@ ensures implies(old(had), tbt[t.name][t.value] == old(tbt[t.name][t.value]))
